@@ -37,6 +37,14 @@ def _mk(kind, H):
     if kind == "Polygon":
         v = SH.place([(x, y, 0) for x, y in SH.POLYGONS["arrow"]], "r1", 1, OFF)
         return S.Polygon(H.arr([[H.num(c) for c in p] for p in v]), test_simple=False)
+    if kind == "Polygon_cw":
+        v = SH.place([(x, y, 0) for x, y in SH.POLYGONS["arrow"]], "r1", 1, OFF)
+        nrm = [-x for x in O.matvec(O.rot_from_quat(*SH.QUATS["r1"]), [F(0), F(0), F(1)])]
+        return S.Polygon(H.arr([[H.num(c) for c in p] for p in v]), normal=H.arr([H.num(x) for x in nrm]), test_simple=False)
+    if kind == "Polygon_reflex_first":
+        a = SH.POLYGONS["arrow"]
+        v = SH.place([(x, y, 0) for x, y in a[1:] + a[:1]], "r2", 1, OFF)
+        return S.Polygon(H.arr([[H.num(c) for c in p] for p in v]), test_simple=False)
     if kind == "ConvexPolygon":
         v = SH.place([(x, y, 0) for x, y in SH.POLYGONS["quad"]], "r2", 1, OFF)
         return S.ConvexPolygon(H.arr([[H.num(c) for c in p] for p in v]))
@@ -72,13 +80,15 @@ def _mk_curved(kind, H, V):
 
 
 CURVED = {"Circle": ["r"], "Sphere": ["r"], "Ellipse": ["a", "b"], "Ellipsoid": ["a", "b", "c"]}
-POLY = ["Polygon", "ConvexPolygon", "ConvexSpheropolygon", "Polyhedron", "ConvexPolyhedron", "ConvexSpheropolyhedron"]
+POLY = ["Polygon", "ConvexPolygon", "ConvexSpheropolygon", "Polyhedron", "ConvexPolyhedron", "ConvexSpheropolyhedron",
+        # polygons whose vertices run clockwise about their stored normal (negative signed area): explicit opposite normal / reflex first corner
+        "Polygon_cw", "Polygon_reflex_first"]
 
 
 def settable(kind):
     import coxeter.shapes as S
 
-    cls = getattr(S, kind)
+    cls = getattr(S, kind.split("_")[0])
     out = []
     for n in sorted(dir(cls)):
         a = getattr(cls, n, None)
@@ -223,7 +233,7 @@ def _ob(kind, prop, tier):
     import coxeter.shapes as S
     from symx.loader import functions_encoded
 
-    cls = getattr(S, kind)
+    cls = getattr(S, kind.split("_")[0])
     pr = getattr(cls, prop)
     fns = functions_encoded([pr.fset, pr.fget, cls._rescale])
     first = dict(v=F(7, 3), t0=F(1), t1=F(-4), t2=F(2), r=F(3, 2), a=F(3, 2), b=F(2), c=F(5, 4), cx=F(1), cy=F(-2), cz=F(3))
